@@ -218,6 +218,11 @@ func (msg MsgStake) ValidateBasic() error {
 	if err := ValidateCoins("Amount", msg.Amount); err != nil {
 		return err
 	}
+	// ValidateCoins drops zero coins: a zero stake would register a farmer with
+	// nothing locked, which the genesis validation rejects
+	if !msg.Amount.IsPositive() {
+		return errorsmod.Wrapf(sdkerrors.ErrInvalidCoins, "The Amount should be greater than zero, but got %s", msg.Amount)
+	}
 	return nil
 }
 
